@@ -21,6 +21,7 @@ ROOT = os.path.dirname(os.path.dirname(os.path.abspath(__file__)))
 PROP_MODULES = {
     "C12": ["c12"],
     "C11": ["c11"],
+    "C15": ["c15"],
 }
 
 
